@@ -370,12 +370,13 @@ type SMTCtx struct {
 	lines   []string
 	nfresh  int
 	declared map[string]bool
+	defs     map[string]string // defined name -> its definition
 }
 
-func newCtx() *SMTCtx { return &SMTCtx{declared: map[string]bool{}} }
+func newCtx() *SMTCtx { return &SMTCtx{declared: map[string]bool{}, defs: map[string]string{}} }
 
 func (c *SMTCtx) clone() *SMTCtx {
-	n := &SMTCtx{lines: append([]string(nil), c.lines...), nfresh: c.nfresh, declared: map[string]bool{}}
+	n := &SMTCtx{lines: append([]string(nil), c.lines...), nfresh: c.nfresh, declared: map[string]bool{}, defs: c.defs}
 	for k := range c.declared {
 		n.declared[k] = true
 	}
@@ -426,6 +427,7 @@ func (c *SMTCtx) Define(hint string, t Term) Term {
 	c.nfresh++
 	name := fmt.Sprintf("%s!%d", sanitize(hint), c.nfresh)
 	c.lines = append(c.lines, fmt.Sprintf("(define-fun %s () %s %s)", name, t.Sort, t.S))
+	c.defs[name] = t.S
 	return Term{name, t.Sort}
 }
 
@@ -589,4 +591,12 @@ func solve(name, query string, timeoutS int, wantModel bool) SolveResult {
 		}
 	}
 	return last
+}
+
+// Expand replaces a defined name by its definition (one level), for syntactic pattern matching.
+func (c *SMTCtx) Expand(t Term) Term {
+	if d, ok := c.defs[t.S]; ok {
+		return Term{d, t.Sort}
+	}
+	return t
 }
